@@ -185,6 +185,11 @@ theorem step_zone (cfg : Cfg) (s : Txn) (op : Op) (h : op.isCommit = false) : (s
     by_cases h1 : s.ended = true
     · rw [if_pos h1]
     rw [if_neg h1]; split <;> rfl
+  | getNode n =>
+    simp only [step]
+    split
+    · rfl
+    · split <;> rfl
   | changed => simp only [step]; split <;> rfl
   | dump => simp only [step]; split <;> rfl
 
@@ -205,16 +210,35 @@ theorem exit_exc_zone (s : Txn) : (exitTxn s true).zone = s.zone := by
 
 /-! ### ended transactions -/
 
-theorem step_ended (cfg : Cfg) (s : Txn) (op : Op) (h : s.ended = true) : step cfg s op = (s, .error .alreadyEnded) := by
-  cases op <;> simp [step, endTxn, h]
+def Op.isGetNode : Op → Bool
+  | .getNode _ => true
+  | _ => false
 
-theorem run_ended (cfg : Cfg) (ops : List Op) (s : Txn) (h : s.ended = true) :
-    (run cfg s ops).1 = s ∧ ∀ r ∈ (run cfg s ops).2, r = .error .alreadyEnded := by
+theorem step_ended (cfg : Cfg) (s : Txn) (op : Op) (h : s.ended = true) (hgn : cfg.gn = false ∨ op.isGetNode = false) :
+    step cfg s op = (s, .error .alreadyEnded) := by
+  cases op with
+  | getNode n =>
+    rcases hgn with hgn | hgn
+    · simp [step, h, hgn]
+    · simp [Op.isGetNode] at hgn
+  | _ => simp [step, endTxn, h]
+
+/-- whatever the guard of `get_node`, an ended transaction never changes again -/
+theorem step_ended_state (cfg : Cfg) (s : Txn) (op : Op) (h : s.ended = true) : (step cfg s op).1 = s := by
+  cases op with
+  | getNode n =>
+    simp only [step]
+    split
+    · rfl
+    · split <;> rfl
+  | _ => simp [step, endTxn, h]
+
+theorem run_ended (cfg : Cfg) (ops : List Op) (s : Txn) (h : s.ended = true) : (run cfg s ops).1 = s := by
   induction ops with
   | nil => simp [run]
   | cons op rest ih =>
-    simp only [run, step_ended cfg s op h]
-    exact ⟨ih.1, by intro r hr; rcases List.mem_cons.mp hr with e | e; exact e; exact ih.2 r e⟩
+    simp only [run, step_ended_state cfg s op h]
+    exact ih
 
 theorem rollback_ends (s : Txn) : (endTxn s false).1.ended = true ∧ (endTxn s false).1.zone = s.zone := by
   unfold endTxn
@@ -283,6 +307,11 @@ theorem step_readOnly_frame (cfg : Cfg) (s : Txn) (op : Op) (h : s.readOnly = tr
     by_cases h1 : s.ended = true
     · rw [if_pos h1]; exact ⟨rfl, h⟩
     rw [if_neg h1]; split <;> exact ⟨rfl, h⟩
+  | getNode n =>
+    simp only [step]
+    split
+    · exact ⟨rfl, h⟩
+    · split <;> exact ⟨rfl, h⟩
   | changed => simp only [step]; split <;> exact ⟨rfl, h⟩
   | dump => simp only [step]; split <;> exact ⟨rfl, h⟩
 
